@@ -90,6 +90,7 @@ func TestVerif_Forward(t *testing.T) {
 	}
 	rnd := rand.New(rand.NewSource(zzverif.Seed()))
 	var rndMu sync.Mutex
+	var phase1 atomic.Bool
 	for _, engine := range []string{"sherpa", "olla"} {
 		opts := []verifEndpointOpt{{Models: []string{"m1"}}, {Models: []string{"m1"}}}
 		stk, err := verifBoot(engine, "round-robin", "auto", opts, nil)
@@ -107,6 +108,11 @@ func TestVerif_Forward(t *testing.T) {
 				}
 				tr.Emit("Upstream", "r", r.ReqID, "e", be.Name, "method", r.Method, "target", r.Target, "sha", r.BodySHA[:16],
 					"len", len(r.Body), "nonce", verifNonceRe.FindString(string(r.Body)), "model", model)
+				// every third request meets a connection reset on its first attempt: the failover attempt must
+				// carry the same request
+				if phase1.Load() && r.Attempt == 1 && strings.HasSuffix(r.ReqID, "3") {
+					return zzverif.Plan{Kind: "reset_pre"}
+				}
 				if strings.Contains(r.Target, "chat/completions") && strings.Contains(string(r.Body), `"max_tokens"`) {
 					return zzverif.Plan{Kind: "ok", Status: 200, Body: verifOpenAICompletion}
 				}
@@ -114,6 +120,7 @@ func TestVerif_Forward(t *testing.T) {
 			}
 		}
 		var seq atomic.Int64
+		phase1.Store(true)
 		one := func(sc verifFwdScn) {
 			id := fmt.Sprintf("%s-%d", engine, seq.Add(1))
 			nonce := "nonce-" + strings.ReplaceAll(id, "-", "")
@@ -156,11 +163,15 @@ func TestVerif_Forward(t *testing.T) {
 				st = 0
 			}
 			tr.Emit("ClientDone", "r", id, "st", st)
+			if phase1.Load() && strings.HasSuffix(id, "3") {
+				stk.healthRound() // the reset marked that endpoint offline; readmit it
+			}
 		}
 		// phase 1: one at a time
 		for _, sc := range scns {
 			one(sc)
 		}
+		phase1.Store(false)
 		// phase 2: waves of concurrent requests (distinct bodies), big ones left out to keep waves dense
 		small := []verifFwdScn{}
 		for _, sc := range scns {
